@@ -11,7 +11,7 @@ from .. import absint as A
 from .. import flow
 from .. import model as M
 from ..report import AnalysisError, need
-from ..util import SelfHooks, text
+from ..util import SelfHooks, text, macro_classes
 
 
 def check(chk):
@@ -22,6 +22,7 @@ def check(chk):
     r84(chk, m)
     r85(chk, m)
     r86(chk, m)
+    r89(chk, m)
     from . import shared
     shared.cache_rules(chk, m, 'R8.7')
     chk.decline('the numbers of a whole generated document (running computation over the document history)')
@@ -38,13 +39,48 @@ def newcounter_calls(fn):
     return out
 
 
+def class_setup(m, modname):
+    """Interpret <package>.ProcessOptions({}, document) on a recording heap: the counters it declares and the
+    attributes it patches on macro classes looked up through the context."""
+    fn = m.module(modname).functions.get('ProcessOptions')
+    need(fn is not None, '%s.ProcessOptions not found' % modname)
+
+    class H(A.Hooks):
+        def call(self, interp, node, fname, args, kwargs, state):
+            if fname.endswith('.newcounter') and args:
+                kw = dict(kwargs)
+                names = ['resetby', 'initial', 'format', 'trimLeft']
+                for nm, v in zip(names, args[1:]):
+                    kw.setdefault(nm, v)
+                state.env['__decl'] = state.env.get('__decl', ()) + ((args[0], tuple(sorted((k, v) for k, v in kw.items() if A.is_concrete(v)))),)
+                return A.NONE
+            return None
+
+        def keep(self, ev):
+            return False
+    h = H()
+    h.should_inline = A.private_only
+    it = A.Interp(model=m, scope=fn, hooks=h, max_iter=2, exc_edges=False, inline=2, heap=True)
+    ctx = A.Obj('context', {'__items': {}, '__auto': True})
+    doc = A.Obj('document', {'context': ctx})
+    outs = [(s2, v) for kind, s2, v in it.run_function(fn, env={'options': {}, 'document': doc, '__ctx': ctx}) if kind == 'return']
+    need(len(outs) >= 1, '%s.ProcessOptions has no normal exit' % modname)
+    decls = {s2.env.get('__decl', ()) for s2, v in outs}
+    need(len(decls) == 1, '%s.ProcessOptions declares counters that depend on unknown conditions' % modname)
+    patched = {}
+    for s2, v in outs:
+        for name, obj in s2.env['__ctx'].attrs['__items'].items():
+            for attr, val in obj.attrs.items():
+                patched.setdefault((name, attr), set()).add(val if A.is_concrete(val) else repr(val))
+    return fn, {name: dict(kw) for name, kw in decls.pop()}, patched
+
+
 def r81(chk, m):
-    R = chk.rule('R8.1', 'reset tree agrees with the hierarchy: each sectioning counter is reset by the counter of the next outer '
-                 'unit, equation/figure/table by chapter, enum counters chain; nested formats are ${the<resetby>}.${<self>}', 18)
-    fn = m.module('plasTeX.Packages.book').functions.get('ProcessOptions')
-    need(fn is not None, 'book.ProcessOptions not found')
+    R = chk.rule('R8.1', 'reset tree agrees with the hierarchy (class set-up interpreted on a recording heap): each sectioning counter '
+                 'is reset by the counter of the next outer unit, equation/figure/table by chapter, enum counters chain; nested '
+                 'formats are ${the<resetby>}.${<self>}; newcounter creates the counter and its \\the<name> as declared', 18)
+    fn, nc, patched = class_setup(m, 'plasTeX.Packages.book')
     chk.analysed(fn)
-    nc = newcounter_calls(fn)
     sec = 'plasTeX.Base.LaTeX.Sectioning'
     units = ['part', 'chapter', 'section', 'subsection', 'subsubsection', 'paragraph', 'subparagraph', 'subsubparagraph']
     lvl = {}
@@ -78,158 +114,217 @@ def r81(chk, m):
         got = nc.get(e, {}).get('resetby')
         chk.verdict(R, 'counter %s reset by %s' % (e, want), e in nc and got == want, 'counter %s declared with resetby=%r' % (e, got), chk.where(fn), str(got))
     # the only format overrides
-    rep = m.module('plasTeX.Packages.report').functions.get('ProcessOptions')
-    art = m.module('plasTeX.Packages.article').functions.get('ProcessOptions')
-    for f, wanted in ((rep, {"document.context['theequation'].format": "'${equation}'"}),
-                      (art, {"document.context['thesection'].format": "'${section}'"})):
+    for modname, wanted in (('plasTeX.Packages.report', {'theequation': '${equation}'}), ('plasTeX.Packages.article', {'thesection': '${section}'})):
+        f, decl, patched = class_setup(m, modname)
         chk.analysed(f)
-        fm = {text(n.targets[0]): text(n.value) for n in M.walk_no_nested(f.node) if isinstance(n, ast.Assign) and text(n.targets[0]).endswith('.format')}
-        chk.verdict(R, '%s format overrides' % f.module.name, fm == wanted, '%s overrides formats %s, expected %s' % (f.module.name, fm, wanted), chk.where(f), str(fm))
-    # newcounter wiring
-    ncf = m.func('plasTeX.Context', 'Context.newcounter')
+        fm = {name: sorted(vals, key=repr) for (name, attr), vals in patched.items() if attr == 'format'}
+        chk.verdict(R, '%s format overrides' % modname, fm == {k: [v] for k, v in wanted.items()} and not decl,
+                    '%s overrides formats %s and declares %s, expected only %s' % (modname, fm, sorted(decl), wanted), chk.where(f), str(fm))
+    # newcounter wiring, on the small heap of C04
+    from . import c04
+    Context = m.cls('plasTeX.Context', 'Context')
+    ncf = m.find_method(Context, 'newcounter')
     chk.analysed(ncf)
-    src = text(ncf.node)
-    ok = 'plasTeX.Counter(self, name, resetby, initial)' in src and "'format': format" in src and "'trimLeft': trimLeft" in src \
-        and "format = '${%s}' % name" in src
-    chk.verdict(R, 'Context.newcounter wiring', ok, 'newcounter must create Counter(self, name, resetby, initial) and the<name> with format/trimLeft', chk.where(ncf))
+
+    class NH(c04.RegHooks):
+        def call(self, interp, node, fname, args, kwargs, state):
+            if fname == 'type' and len(args) == 3:
+                o = A.Obj('class:%s' % (args[0],), dict(args[2]) if isinstance(args[2], dict) else {})
+                o.attrs['__bases'] = tuple(getattr(b, 'name', repr(b)) for b in args[1]) if isinstance(args[1], tuple) else repr(args[1])
+                o.attrs['__name'] = args[0]
+                return o
+            return c04.RegHooks.call(self, interp, node, fname, args, kwargs, state)
+    for label, extra, want_fmt in (('default format', {'format': None, 'trimLeft': False}, '${foo}'),
+                                   ('explicit format', {'format': '${thebar}.${foo}', 'trimLeft': True}, '${thebar}.${foo}')):
+        h = NH(m, Context)
+        h.keep = lambda ev: False
+        it = A.Interp(model=m, scope=ncf, hooks=h, max_iter=3, exc_edges=False, inline=3, heap=True)
+        env = c04.ctx_heap(m, 2)
+        for f in env['__frames']:
+            f.attrs['__items'] = {}
+        env['self'].attrs.update({'counters': {}, '__items': None})
+        env.update({'name': 'foo', 'resetby': 'bar', 'initial': 4})
+        env.update(extra)
+        got = set()
+        for kind, s2, v in it.run_function(ncf, env=env):
+            if kind != 'return':
+                continue
+            cnt = s2.env['self'].attrs['counters'].get('foo')
+            cargs = tuple(getattr(a, 'label', a) if isinstance(a, (A.Obj, A.Sym)) else a for a in cnt.attrs.get('__args', ())) if isinstance(cnt, A.Obj) else None
+            glob = s2.env['__frames'][0].attrs['__items']
+            the = [o for o in glob.values() if isinstance(o, A.Obj) and o.attrs.get('__name') == 'thefoo']
+            desc = (the[0].attrs.get('__bases'), the[0].attrs.get('format'), the[0].attrs.get('trimLeft')) if len(the) == 1 else None
+            got.add((getattr(getattr(cnt, 'cls', None), 'name', None), cargs, desc))
+        want = {('Counter', ('context', 'foo', 'bar', 4), (('TheCounter',), want_fmt, extra['trimLeft']))}
+        chk.decide(R, 'Context.newcounter wiring (%s)' % label, {repr(g) for g in got}, {repr(w) for w in want},
+                   'newcounter("foo", resetby="bar", initial=4, %s) gives (counter class, its arguments, (bases, format, trimLeft) of \\thefoo) = %s; '
+                   'expected %s' % (extra, sorted(got, key=repr), sorted(want, key=repr)), chk.where(ncf))
+
+
+def counter_heap(m):
+    Counter = m.cls('plasTeX', 'Counter')
+    table = {}
+    spec = [('X', None, 5), ('A', 'X', 3), ('B', 'A', 4), ('C', 'Y', 5), ('D', None, 6), ('E', 'X', 0), ('F', 'E', 7)]
+    for name, resetby, value in spec:
+        table[name] = A.Obj('counter:%s' % name, {'name': name, 'resetby': resetby, 'value': value, 'counters': table}, cls=Counter)
+    return table
 
 
 def r82(chk, m):
-    R = chk.rule('R8.2', 'stepcounter/setcounter/addtocounter change the value and then reach resetcounters on every path; '
-                 'resetcounters zeroes every counter whose resetby equals this name and recurses on it - under no other condition', 7)
+    R = chk.rule('R8.2', 'counters on a small heap (X <- A <- B, X <- E(=0) <- F, C within Y, D free): stepcounter/setcounter/'
+                 'addtocounter change the value by 1 / to n / by n and then zero every counter declared within this one, '
+                 'transitively - also through a counter that is already 0 - and no other counter', 4)
     Counter = m.cls('plasTeX', 'Counter')
-    for name, expr in (('stepcounter', ('aug', 'Add', 1)), ('setcounter', ('set', None, None)), ('addtocounter', ('aug', 'Add', None))):
+    for name, extra, newval in (('stepcounter', {}, 6), ('setcounter', {'other': 3}, 3), ('addtocounter', {'other': 4}, 9), ('resetcounters', {}, 5)):
         fn = m.find_method(Counter, name)
+        need(fn is not None, 'Counter.%s not found' % name)
         chk.analysed(fn)
+        table = counter_heap(m)
+        h = SelfHooks(m, Counter)
+        h.keep = lambda ev: False
+        h.lookup = lambda interp, nm, state: None
+        it = A.Interp(model=m, scope=fn, hooks=h, max_iter=10, exc_edges=False, inline=7, heap=True)
+        env = {'self': table['X'], '__table': table}
+        env.update(extra)
+        got = set()
+        for kind, s2, v in it.run_function(fn, env=env):
+            t = s2.env['__table']
+            got.add((kind,) + tuple((k, t[k].attrs.get('value') if A.is_concrete(t[k].attrs.get('value')) else 'TOP') for k in sorted(t)))
+        want = {('return', ('A', 0), ('B', 0), ('C', 5), ('D', 6), ('E', 0), ('F', 0), ('X', newval))}
+        chk.decide(R, 'Counter.%s' % name, {repr(g) for g in got}, {repr(w) for w in want},
+                   'X.%s(%s) on the heap gives %s; expected X=%d and exactly the counters within X (A, B, E, F) reset to 0'
+                   % (name, ', '.join(map(str, extra.values())), sorted(got, key=repr), newval), chk.where(fn))
+    # names of counters reach Context.newcounter as strings
+    R2 = chk.rule('R8.8', 'a counter name that a macro reads from its own arguments and hands to Context.newcounter is declared with a '
+                  'string type in the signature (an untyped argument is a token fragment and never compares equal to a counter name)', 2)
+    n = 0
+    for c in macro_classes(m):
+        fn = c.methods.get('invoke')
+        if fn is None:
+            continue
+        calls = [x for x in M.calls_in(fn.node) if M.call_name(x).endswith('.newcounter')]
+        if not calls:
+            continue
+        args_s = m.class_const(c, 'args')
+        if not isinstance(args_s, str):
+            continue
+        types = {mo.group(1): mo.group(2) for mo in re.finditer(r'(\w+)(?::(\w+))?', args_s)}
+        aliases = {}
+        for x in M.walk_no_nested(fn.node):
+            if isinstance(x, ast.Assign) and len(x.targets) == 1 and isinstance(x.targets[0], ast.Name):
+                aliases[x.targets[0].id] = x.value
+        for call in calls:
+            for pos, a in list(enumerate(call.args[:2])) + [(k.arg, k.value) for k in call.keywords if k.arg in ('name', 'resetby')]:
+                e = a
+                for _ in range(3):
+                    if isinstance(e, ast.Name) and e.id in aliases:
+                        e = aliases[e.id]
+                if isinstance(e, ast.Subscript) and isinstance(e.slice, ast.Constant) and isinstance(e.slice.value, str) and e.slice.value in types:
+                    n += 1
+                    chk.analysed(fn)
+                    t = types[e.slice.value]
+                    chk.verdict(R2, '%s: argument %s' % (c.fullname, e.slice.value), t in ('str', 'id'),
+                                '%s hands its argument %r to Context.newcounter but declares it as %r in args=%r: the counter name is then a '
+                                'token fragment, which never equals the name of the counter being stepped (the counter is never reset)'
+                                % (c.fullname, e.slice.value, t or 'untyped', args_s), chk.where(fn, call))
+    need(n >= 2, 'macros that declare counters from their arguments (\\newcounter, \\newtheorem) not found')
 
-        def transfer(n, v):
-            changed, reset = v
-            if isinstance(n, (ast.Assign, ast.AugAssign)) and text(n.targets[0] if isinstance(n, ast.Assign) else n.target) == 'self.value':
-                changed = True
-            if isinstance(n, ast.Call) and M.call_name(n) == 'self.resetcounters':
-                reset = changed
-            return (changed, reset)
-        normal, raised = flow.function_exits(fn.node, (False, False), transfer)
-        chk.verdict(R, 'Counter.%s -> resetcounters' % name, normal == {(True, True)},
-                    'Counter.%s exits with (value changed, reset after the change) in %s' % (name, sorted(normal)), chk.where(fn))
-        stm = [n for n in M.walk_no_nested(fn.node) if isinstance(n, (ast.Assign, ast.AugAssign))]
-        if name == 'stepcounter':
-            ok = len(stm) == 1 and isinstance(stm[0], ast.AugAssign) and isinstance(stm[0].op, ast.Add) and text(stm[0].value) == '1'
-        elif name == 'setcounter':
-            ok = len(stm) == 1 and isinstance(stm[0], ast.Assign) and text(stm[0].value) in ('int(other)', 'other')
-        else:
-            ok = len(stm) == 1 and isinstance(stm[0], ast.AugAssign) and isinstance(stm[0].op, ast.Add) and text(stm[0].value) in ('int(other)', 'other')
-        chk.verdict(R, 'Counter.%s arithmetic' % name, ok, 'Counter.%s updates the value by %s' % (name, [text(s) for s in stm]), chk.where(fn))
-    fn = m.find_method(Counter, 'resetcounters')
-    chk.analysed(fn)
-    loops = [n for n in M.walk_no_nested(fn.node) if isinstance(n, ast.For)]
-    need(len(loops) == 1, 'Counter.resetcounters: loop not found')
-    loop = loops[0]
-    it_src = text(loop.iter).replace(' ', '')
-    chk.verdict(R, 'resetcounters visits every counter', it_src in ('list(self.counters.values())', 'self.counters.values()'),
-                'resetcounters iterates over %s' % text(loop.iter), chk.where(fn))
-    results = {}
-    for label, resetby, value in (('dependent counter, value 3', 'X', 3), ('dependent counter already 0', 'X', 0),
-                                  ('dependent counter, value unknown', 'X', A.TOP),
-                                  ('independent counter', 'Y', 3), ('counter without resetby', None, 3)):
-        cnt = A.Sym('CNT', truthy=True, attrs={'resetby': resetby, 'value': value, 'name': 'C'})
-        h = A.Hooks()
-        h.keep = lambda ev: ev[0] in ('setattr', 'call')
-        it = A.Interp(model=m, scope=fn, hooks=h, max_iter=1, exc_edges=False)
-        outs = it.block(loop.body, [A.State({text(loop.target): cnt, 'self.name': 'X'})])
-        acts = set()
-        for kind in ('fall', 'continue', 'break'):
-            for s, v in outs.get(kind, []):
-                zero = any(e[0] == 'setattr' and e[1] == 'counter.value' and e[2] == 0 for e in s.trace)
-                rec = any(e[0] == 'call' and e[1] == 'counter.resetcounters' for e in s.trace)
-                acts.add((zero, rec, kind))
-        results[label] = acts
-        want = {(True, True, 'fall')} if resetby == 'X' else {(False, False, 'fall')}
-        chk.verdict(R, 'resetcounters: %s' % label, acts == want,
-                    'for a %s (resetby=%r, this counter "X") the loop body does (zeroed, recursed, exit) = %s; expected %s: '
-                    'the reset must be transitive and depend only on the declaration' % (label, resetby, sorted(acts), sorted(want)),
-                    chk.where(fn, loop), str(sorted(acts)))
+
+def macro_heap(m, cls, counter='equation', args='', level=None, **attrs):
+    """A macro instance on the heap with a document, a context and the counter table of counter_heap()."""
+    table = counter_heap(m)
+    Counter = m.cls('plasTeX', 'Counter')
+    table['equation'] = A.Obj('counter:equation', {'name': 'equation', 'resetby': 'chapter', 'value': 5, 'counters': table}, cls=Counter)
+    ctx = A.Obj('context', {'counters': table, 'currentlabel': None})
+    doc = A.Obj('document', {'context': ctx})
+    me = A.Obj('macro', dict({'counter': counter, 'args': args, 'ownerDocument': doc, 'config': {'document': {'sec-num-depth': 2}}}, **attrs), cls=cls)
+    if level is not None:
+        me.attrs['level'] = level
+    return {'self': me, '__ctx': ctx, '__table': table, 'tex': A.Sym('tex', truthy=True)}
+
+
+def run_macro(m, chk, fn, env, cls, inline=7, filt=None):
+    h = SelfHooks(m, cls)
+    h.keep = lambda ev: False
+    if filt is not None:
+        h.should_inline = filt
+    h.lookup = lambda interp, nm, state: None
+    it = A.Interp(model=m, scope=fn, hooks=h, max_iter=10, exc_edges=False, inline=inline, heap=True, precise_exc=True)
+    outs = it.run_function(fn, env=env)
+    chk.paths += len(outs)
+    res = set()
+    for kind, s2, v in outs:
+        me, ctx, table = s2.env['self'], s2.env['__ctx'], s2.env['__table']
+        val = table['equation'].attrs.get('value')
+        lab = ctx.attrs.get('currentlabel')
+        res.add((kind, val if A.is_concrete(val) else 'TOP', 'self' if lab is me else repr(lab), me.attrs.get('counter') if A.is_concrete(me.attrs.get('counter')) else 'TOP',
+                 'ref' in me.attrs))
+    return res
 
 
 def r83(chk, m):
-    R = chk.rule('R8.3', 'who steps and when: the three hooks preParse/preArgument/postArgument partition the signature shapes so '
-                 'that refstepcounter runs exactly once; a present * clears the counter before stepping; refstepcounter sets the '
-                 'current label before stepping; postParse computes the number only down to the numbering depth; \\nonumber '
-                 'compensates', 9)
+    R = chk.rule('R8.3', 'who steps and when, on a small heap (equation counter at 5): the hooks preParse/preArgument/postArgument '
+                 'partition the signature shapes so that the counter is stepped exactly once and the object becomes the current '
+                 'label; a present * steps nothing and clears the counter of the instance; no declared counter: nothing happens; '
+                 'postParse computes the number only down to the numbering depth; \\nonumber takes the step back', 12)
     Macro = m.cls('plasTeX', 'Macro')
-
-    def count(fn, env):
-        h = SelfHooks(m, Macro)
-        h.keep = lambda ev: ev[0] in ('call', 'setattr')
-        it = A.Interp(model=m, scope=fn, hooks=h, max_iter=1, exc_edges=False)
-        outs = it.run_function(fn, env=env)
-        res = set()
-        for kind, s, v in outs:
-            if kind != 'return':
-                continue
-            steps = [e for e in s.trace if e[0] == 'call' and e[1] == 'self.refstepcounter']
-            cleared = [e for e in s.trace if e[0] == 'setattr' and e[1] == 'self.counter']
-            order_ok = True
-            if cleared and steps:
-                order_ok = s.trace.index(cleared[0]) < s.trace.index(steps[0])
-            res.add((len(steps), tuple(repr(e[2]) for e in cleared), order_ok))
-        return res
     pre, prearg, postarg = (m.find_method(Macro, n) for n in ('preParse', 'preArgument', 'postArgument'))
     for f in (pre, prearg, postarg):
+        need(f is not None, 'Macro.preParse/preArgument/postArgument not found')
         chk.analysed(f)
-    arg = lambda idx, name: A.Sym('ARG', truthy=True, attrs={'index': idx, 'name': name})
+    arg = lambda idx, name: A.Obj('arg', {'index': idx, 'name': name})
+    STEP, NOTHING = ('return', 6, 'self', 'equation', False), ('return', 5, 'None', 'equation', False)
+    STAR = ('return', 5, 'self', '', False)
     shapes = [
-        ('no arguments', [(pre, {'self.args': ''})], 1, ()),
-        ('first argument ordinary', [(pre, {'self.args': 'title'}), (prearg, {'arg': arg(0, 'title')}), (postarg, {'arg': arg(0, 'title'), 'value': A.TOP})], 1, ()),
-        ('first argument * present', [(pre, {'self.args': '* title'}), (prearg, {'arg': arg(0, '*modifier*')}), (postarg, {'arg': arg(0, '*modifier*'), 'value': True})], 1, ("''",)),
-        ('first argument * absent', [(pre, {'self.args': '* title'}), (prearg, {'arg': arg(0, '*modifier*')}), (postarg, {'arg': arg(0, '*modifier*'), 'value': None})], 1, ()),
-        ('later argument', [(prearg, {'arg': arg(1, 'title')}), (postarg, {'arg': arg(1, 'title'), 'value': A.TOP})], 0, ()),
-        ('later * argument', [(prearg, {'arg': arg(2, '*modifier*')}), (postarg, {'arg': arg(2, '*modifier*'), 'value': True})], 0, ()),
+        ('no arguments', [(pre, '', {}, STEP)]),
+        ('first argument ordinary', [(pre, 'title', {}, NOTHING), (prearg, 'title', {'arg': arg(0, 'title')}, STEP),
+                                     (postarg, 'title', {'arg': arg(0, 'title'), 'value': A.Sym('v', truthy=True)}, NOTHING)]),
+        ('first argument * present', [(pre, '* title', {}, NOTHING), (prearg, '* title', {'arg': arg(0, '*modifier*')}, NOTHING),
+                                      (postarg, '* title', {'arg': arg(0, '*modifier*'), 'value': True}, STAR)]),
+        ('first argument * absent', [(pre, '* title', {}, NOTHING), (prearg, '* title', {'arg': arg(0, '*modifier*')}, NOTHING),
+                                     (postarg, '* title', {'arg': arg(0, '*modifier*'), 'value': None}, STEP)]),
+        ('later argument', [(prearg, '* title', {'arg': arg(1, 'title')}, NOTHING),
+                            (postarg, '* title', {'arg': arg(1, 'title'), 'value': A.Sym('v', truthy=True)}, NOTHING)]),
+        ('later * argument', [(prearg, 'a * b', {'arg': arg(2, '*modifier*')}, NOTHING), (postarg, 'a * b', {'arg': arg(2, '*modifier*'), 'value': True}, NOTHING)]),
     ]
-    for label, calls, want_steps, want_clear in shapes:
-        total = 0
-        clears = ()
-        ok = True
-        detail = []
-        for f, env in calls:
-            r = count(f, env)
-            detail.append((f.name, sorted(r)))
-            if len(r) != 1:
-                ok = False
-                continue
-            (n, cl, order_ok), = r
-            total += n
-            clears += cl
-            ok = ok and order_ok
-        chk.verdict(R, 'stepping: %s' % label, ok and total == want_steps and clears == want_clear,
-                    'signature shape "%s": refstepcounter runs %d time(s) (expected %d), counter cleared %s (expected %s): %s'
-                    % (label, total, want_steps, clears, want_clear, detail), chk.where(pre), 'steps=%d' % total)
+    for label, calls in shapes:
+        bad = []
+        undec = False
+        for f, args_s, extra, want in calls:
+            env = macro_heap(m, Macro, 'equation', args_s)
+            env.update(extra)
+            got = run_macro(m, chk, f, env, Macro)
+            if got != {want}:
+                bad.append('%s -> %s (expected %s)' % (f.name, sorted(got, key=repr), want))
+                undec = undec or any('TOP' in map(str, g) for g in got)
+        msg = 'signature shape "%s": (outcome, equation counter from 5, current label, counter of the instance, number computed) per hook: %s' % (label, '; '.join(bad))
+        if bad and undec:
+            chk.undecided(R, 'stepping: %s' % label, msg, chk.where(pre))
+        else:
+            chk.verdict(R, 'stepping: %s' % label, not bad, msg, chk.where(pre), 'stepped exactly once')
     rs = m.find_method(Macro, 'refstepcounter')
     chk.analysed(rs)
-
-    def tr(n, v):
-        cur, step = v
-        if isinstance(n, ast.Assign) and text(n.targets[0]).endswith('context.currentlabel') and text(n.value) == 'self':
-            cur = True
-        if isinstance(n, ast.Call) and M.call_name(n) == 'self.stepcounter':
-            step = 'after-label' if cur else 'before-label'
-        return (cur, step)
-    normal, raised = flow.function_exits(rs.node, (False, None), tr)
-    chk.verdict(R, 'refstepcounter sets the current label, then steps', normal == {(False, None), (True, 'after-label')},
-                'refstepcounter exits with (label set, step) in %s' % sorted(map(str, normal)), chk.where(rs))
-    guard = [text(n.test) for n in M.walk_no_nested(rs.node) if isinstance(n, ast.If)]
-    chk.verdict(R, 'refstepcounter acts iff a counter is declared', guard == ['self.counter is not None'], 'guard %s' % guard, chk.where(rs))
+    for label, counter, want in (('a declared counter is stepped and the object becomes the current label', 'equation', STEP),
+                                 ('no counter: nothing happens', None, ('return', 5, 'None', None, False))):
+        got = run_macro(m, chk, rs, macro_heap(m, Macro, counter), Macro)
+        chk.decide(R, 'refstepcounter: %s' % label, {repr(g) for g in got}, {repr(want)},
+                   'refstepcounter with counter=%r gives %s, expected %s' % (counter, sorted(got, key=repr), want), chk.where(rs))
     pp = m.find_method(Macro, 'postParse')
     chk.analysed(pp)
-    conds = [text(n.test).replace(' ', '') for n in M.walk_no_nested(pp.node) if isinstance(n, ast.If)]
-    ok = conds[:1] == ['self.counter'] and any(c in ('secnumdepth>=self.levelorself.level>self.ENDSECTIONS_LEVEL',) for c in conds)
-    chk.verdict(R, 'postParse numbers only down to secnumdepth', ok,
-                'postParse guards the number by %s; expected `self.counter` and `secnumdepth >= self.level or self.level > ENDSECTIONS_LEVEL`' % conds, chk.where(pp))
+    ENDS = m.class_const(Macro, 'ENDSECTIONS_LEVEL')
+    need(isinstance(ENDS, int), 'Macro.ENDSECTIONS_LEVEL does not fold')
+    for label, counter, level, numbered in (('within the numbering depth', 'equation', 1, True), ('at the numbering depth', 'equation', 2, True),
+                                            ('deeper than the numbering depth', 'equation', 3, False), ('not a sectioning unit', 'equation', ENDS + 1, True),
+                                            ('no counter', '', 1, False)):
+        env = macro_heap(m, Macro, counter, '', level=level, ENDSECTIONS_LEVEL=ENDS)
+        got = {g[4] for g in run_macro(m, chk, pp, env, Macro, inline=3, filt=A.private_only) if g[0] == 'return'}
+        chk.decide(R, 'postParse: %s' % label, got, {numbered},
+                   'postParse with counter=%r, level=%r and sec-num-depth=2 %s a number (%s); expected %s' % (counter, level, 'computes' if got == {True} else 'does not always compute', sorted(got), numbered), chk.where(pp))
     non = m.func('plasTeX.Base.LaTeX.Math', 'nonumber.invoke')
     chk.analysed(non)
-    calls = [text(c) for c in M.calls_in(non.node) if M.call_name(c).endswith('addtocounter')]
-    chk.verdict(R, '\\nonumber compensates with -1', calls == ["self.ownerDocument.context.counters['equation'].addtocounter(-1)"],
-                '\\nonumber does %s' % calls, chk.where(non))
+    got = run_macro(m, chk, non, macro_heap(m, m.cls('plasTeX.Base.LaTeX.Math', 'nonumber'), None), m.cls('plasTeX.Base.LaTeX.Math', 'nonumber'))
+    chk.decide(R, '\\nonumber compensates with -1', {g[:2] for g in got}, {('return', 4)},
+               '\\nonumber leaves the equation counter at %s (from 5); expected 4' % sorted(g[1] for g in got), chk.where(non))
     er = m.cls('plasTeX.Base.LaTeX.Math', 'eqnarray').nested['EndRow']
     chk.verdict(R, 'eqnarray rows step the equation counter', m.class_const(er, 'counter') == 'equation' and
                 m.class_const(m.cls('plasTeX.Base.LaTeX.Math', 'eqnarray'), 'counter') == 'equation' and
@@ -238,84 +333,214 @@ def r83(chk, m):
 
 
 def r84(chk, m):
-    R = chk.rule('R8.4', 'list items: List.invoke zeroes the counters of deeper levels; item.invoke selects List.counters[depth-1]', 2)
-    fn = m.func('plasTeX.Base.LaTeX.Lists', 'List.invoke')
+    R = chk.rule('R8.4', 'list items on a small heap (enumi..enumiv at 3,4,5,6): \\begin of a list goes one level down and zeroes the '
+                 'counters of all deeper levels, \\end goes one level up and zeroes the counter of the level it closes and all deeper '
+                 'ones (so items count 1, 2, 3, ... and restart in every nested list); \\item takes the counter of its depth', 12)
+    Lists = 'plasTeX.Base.LaTeX.Lists'
+    List = m.cls(Lists, 'List')
+    Counter = m.cls('plasTeX', 'Counter')
+    Macro = m.cls('plasTeX', 'Macro')
+    enum = m.class_const(List, 'counters')
+    need(isinstance(enum, list) and len(enum) == 4, 'List.counters does not fold to four names')
+    fn = m.find_method(List, 'invoke')
     chk.analysed(fn)
-    loops = [n for n in M.walk_no_nested(fn.node) if isinstance(n, ast.For)]
-    ok = len(loops) == 1 and text(loops[0].iter).replace(' ', '') == 'range(List.depth,len(List.counters))' and \
-        'counters[List.counters[i]].setcounter(0)' in text(loops[0])
-    chk.verdict(R, 'List.invoke resets deeper counters', ok, 'List.invoke must reset counters[List.counters[i]] for i in range(depth, len)', chk.where(fn))
-    it = m.func('plasTeX.Base.LaTeX.Lists', 'List.item.invoke')
-    chk.analysed(it)
-    src = text(it.node).replace(' ', '')
-    chk.verdict(R, 'item.invoke selects the counter of its depth', 'self.counter=List.counters[List.depth-1]' in src,
-                'item.invoke must select List.counters[List.depth - 1]', chk.where(it))
+
+    def heap(cls):
+        table = {}
+        for i, nme in enumerate(enum):
+            table[nme] = A.Obj('counter:%s' % nme, {'name': nme, 'resetby': (enum[i - 1] if i else None), 'value': 3 + i, 'counters': table}, cls=Counter)
+        ctx = A.Obj('context', {'counters': table})
+        me = A.Obj('macro', {'ownerDocument': A.Obj('document', {'context': ctx})}, cls=cls)
+        return me, table
+
+    def run(f, cls, env):
+        h = SelfHooks(m, cls)
+        h.keep = lambda ev: False
+        h.lookup = lambda interp, nm, state: None
+        h.should_inline = lambda fname, node, info: info is None or info.cls is Counter or A.private_only(fname, node, info)
+        it = A.Interp(model=m, scope=f, hooks=h, max_iter=8, exc_edges=False, inline=7, heap=True, precise_exc=True)
+        outs = it.run_function(f, env=env)
+        chk.paths += len(outs)
+        return outs
+    for mode, delta in (('MODE_BEGIN', 1), ('MODE_END', -1)):
+        for d0 in ((0, 1, 2, 3) if delta == 1 else (1, 2, 3, 4)):
+            me, table = heap(List)
+            me.attrs['macroMode'] = m.class_const(Macro, mode)
+            outs = run(fn, List, {'self': me, '__table': table, 'List.depth': d0, 'tex': A.Sym('tex', truthy=True)})
+            got = set()
+            for kind, s2, v in outs:
+                t = s2.env['__table']
+                got.add((kind, s2.env.get('List.depth') if A.is_concrete(s2.env.get('List.depth')) else 'TOP',
+                         tuple(t[nme].attrs['value'] if A.is_concrete(t[nme].attrs['value']) else 'TOP' for nme in enum)))
+            d1 = d0 + delta
+            want = ('return', d1, tuple(0 if i >= d1 else 3 + i for i in range(4)))
+            chk.decide(R, 'List.invoke %s at depth %d' % ('\\begin' if delta == 1 else '\\end', d0), {repr(g) for g in got}, {repr(want)},
+                       'List.invoke (%s) with List.depth=%d gives (outcome, depth, enumi..enumiv) = %s; expected %s'
+                       % (mode, d0, sorted(got, key=repr), want), chk.where(fn))
+    item = m.func(Lists, 'List.item.invoke')
+    chk.analysed(item)
+    icls = List.nested['item']
+    for d in (1, 2, 3, 4):
+        me, table = heap(icls)
+        outs = run(item, icls, {'self': me, '__table': table, 'List.depth': d, 'tex': A.Sym('tex', truthy=True)})
+        got = {(kind, s2.env['self'].attrs.get('counter'), s2.env['self'].attrs.get('position')) for kind, s2, v in outs}
+        got = {tuple(x if A.is_concrete(x) else 'TOP' for x in g) for g in got}
+        want = ('return', enum[d - 1], 3 + d - 1 + 1)
+        chk.decide(R, 'item.invoke at depth %d' % d, {repr(g) for g in got}, {repr(want)},
+                   '\\item at list depth %d gets (outcome, counter, position) = %s; expected %s' % (d, sorted(got, key=repr), want), chk.where(item))
 
 
-ROMAN = [(900, 'CM'), (500, 'D'), (400, 'CD'), (100, 'C'), (90, 'XC'), (50, 'L'), (40, 'XL'), (10, 'X'), (9, 'IX'), (5, 'V'), (4, 'IV'), (1, 'I')]
+ROMAN = [(1000, 'M'), (900, 'CM'), (500, 'D'), (400, 'CD'), (100, 'C'), (90, 'XC'), (50, 'L'), (40, 'XL'), (10, 'X'), (9, 'IX'), (5, 'V'), (4, 'IV'), (1, 'I')]
+
+
+def roman(n):
+    out = ''
+    for v, sym in ROMAN:
+        while n >= v:
+            out += sym
+            n -= v
+    return out
 
 
 def r85(chk, m):
-    R = chk.rule('R8.5', 'representation tables: the (threshold, symbol, subtrahend) steps of numToRoman are the standard roman '
-                 'table in descending order with inclusive thresholds; thousands by divmod 1000; alph indexes letters[value-1]', 14)
+    R = chk.rule('R8.5', 'representations, by evaluating the functions over their domain (constant folding of a pure function): '
+                 'numToRoman(n) is the standard roman numeral (quick tier: 1..120, every value within 2 of a multiple of 50, '
+                 'x9/x4 patterns and the longest numerals; thorough tier: every value 1..4999); Alph/alph index the alphabet at '
+                 'value-1; roman/alph are the lower-case forms; arabic is str(value)', 14)
     fn = m.module('plasTeX').functions.get('numToRoman')
     need(fn is not None, 'numToRoman not found')
     chk.analysed(fn)
-    steps = []
-    for st in fn.node.body:
-        if isinstance(st, (ast.If, ast.While)) and isinstance(st.test, ast.Compare) and len(st.test.ops) == 1:
-            op = st.test.ops[0]
-            thr = m.eval_const(fn, st.test.comparators[0])
-            var = text(st.test.left)
-            sym = sub = None
-            for b in st.body:
-                if isinstance(b, ast.Assign) and isinstance(b.value, ast.BinOp):
-                    if isinstance(b.value.op, ast.Add) and isinstance(b.value.right, ast.Constant) and isinstance(b.value.right.value, str):
-                        sym = b.value.right.value
-                    if isinstance(b.value.op, ast.Sub) and text(b.value.left) == var:
-                        sub = m.eval_const(fn, b.value.right)
-            # inclusive threshold:  x >= t   or   x > t-1
-            if isinstance(op, ast.GtE):
-                lo = thr
-            elif isinstance(op, ast.Gt):
-                lo = thr + 1
-            else:
-                lo = None
-            steps.append((lo, sym, sub, type(st).__name__))
-    got = [(lo, sym) for lo, sym, sub, kind in steps]
-    for i, (thr, sym) in enumerate(ROMAN):
-        ok = i < len(steps) and steps[i][0] == thr and steps[i][1] == sym and steps[i][2] == thr
-        kind_ok = i < len(steps) and (steps[i][3] == 'While' or sym in ('CM', 'CD', 'XC', 'XL', 'IX', 'IV'))
-        chk.verdict(R, 'roman step %d: %s' % (thr, sym), ok and kind_ok,
-                    'step %d of numToRoman is %s, the roman table needs (%d, %r, subtract %d)%s'
-                    % (i, steps[i] if i < len(steps) else None, thr, sym, thr, '' if kind_ok else ' repeated while it applies'), chk.where(fn),
-                    str(steps[i] if i < len(steps) else None))
-    src = text(fn.node)
-    chk.verdict(R, 'roman thousands', 'divmod(x, 1000)' in src and re.search(r"roman = ['\"]M['\"] \* n", src) is not None and len(steps) == len(ROMAN),
-                'thousands must be M * (x // 1000) and there must be exactly %d steps (found %d)' % (len(ROMAN), len(steps)), chk.where(fn))
+    if chk.tier == 'thorough':
+        values = list(range(1, 5000))
+    else:
+        values = sorted(set(list(range(1, 121)) + [v + d for v in range(50, 5000, 50) for d in (-2, -1, 0, 1, 2)] +
+                            [3888, 2888, 1888, 4888, 3999, 4999, 1994, 2444, 1666, 949, 499, 999, 1499, 4444, 3333]))
+        values = [v for v in values if 1 <= v <= 4999]
+    h = A.Hooks()
+    h.keep = lambda ev: False
+    h.should_inline = A.private_only
+    bad = []
+    undet = []
+    groups = {}
+    for v in values:
+        it = A.Interp(model=m, scope=fn, hooks=h, max_iter=8, exc_edges=False, inline=2, max_states=2000)
+        outs = it.run_function(fn, env={'x': v})
+        res = {r for kind, s2, r in outs if kind == 'return' and isinstance(r, str)}
+        if len(outs) != 1 or len(res) != 1:
+            undet.append(v)
+        elif res != {roman(v)}:
+            bad.append((v, sorted(res)[0], roman(v)))
+        groups.setdefault(v // 500, []).append(v)
+    chk.paths += len(values)
+    for g, vs in sorted(groups.items()):
+        b = [x for x in bad if x[0] in vs]
+        u = [x for x in undet if x in vs]
+        key = 'numToRoman %d..%d' % (g * 500 if g else 1, g * 500 + 499)
+        if u and not b:
+            chk.undecided(R, key, 'numToRoman is not determined for %s' % u[:8], chk.where(fn))
+        else:
+            chk.verdict(R, key, not b, 'numToRoman gives %s (value, got, standard numeral)' % b[:6], chk.where(fn), '%d values' % len(vs))
     Counter = m.cls('plasTeX', 'Counter')
-    al = Counter.properties['Alph']['get']
-    chk.analysed(al)
-    ok = 'stringletters()[self.value - 1].upper()' in text(al.node)
-    lower = 'self.Alph.lower()' in text(Counter.properties['alph']['get'].node) and 'self.Roman.lower()' in text(Counter.properties['roman']['get'].node)
-    chk.verdict(R, 'alph/Alph/roman derive from one table', ok and lower, 'Alph must index letters[value-1]; alph/roman are the lower-case forms', chk.where(al))
+
+    class LH(SelfHooks):
+        def call(self, interp, node, fname, args, kwargs, state):
+            if fname.endswith('stringletters') and not args:
+                return 'abcdefghijklmnopqrstuvwxyz'
+            if fname == 'numToRoman' and len(args) == 1 and isinstance(args[0], int):
+                return roman(args[0])
+            return None
+
+        def keep(self, ev):
+            return False
+    for prop, f_want in (('Alph', lambda v: 'ABCDEFGHIJKLMNOPQRSTUVWXYZ'[v - 1]), ('alph', lambda v: 'abcdefghijklmnopqrstuvwxyz'[v - 1]),
+                         ('Roman', roman), ('roman', lambda v: roman(v).lower()), ('arabic', str)):
+        getter = Counter.properties.get(prop, {}).get('get')
+        need(getter is not None, 'Counter.%s not found' % prop)
+        chk.analysed(getter)
+        vals = (1, 2, 13, 25, 26) if 'lph' in prop else (1, 4, 9, 14, 40, 1994)
+        got = {}
+        for v in vals:
+            hk = LH(m, Counter)
+            hk.lookup = lambda interp, nm, state: None
+            it = A.Interp(model=m, scope=getter, hooks=hk, max_iter=4, exc_edges=False, inline=3, heap=True)
+            outs = it.run_function(getter, env={'self': A.Obj('counter', {'value': v, 'name': 'c'}, cls=Counter)})
+            got[v] = sorted({r if isinstance(r, str) else 'TOP' for kind, s2, r in outs if kind == 'return'})
+        want = {v: [f_want(v)] for v in vals}
+        chk.decide(R, 'Counter.%s' % prop, {repr(sorted(got.items()))}, {repr(sorted(want.items()))},
+                   'Counter.%s gives %s, expected %s' % (prop, got, want), chk.where(getter))
+
+
+FACTORY_SAMPLE = """
+import functools
+@functools.lru_cache(maxsize=None)
+def _cls(name, fmt):
+    return type('the' + name, (object,), {'format': fmt})
+"""
+
+
+def cached_class_factories(tree):
+    """Functions decorated with a memoising decorator that build classes with type(name, bases, dict)."""
+    out = []
+    for n in ast.walk(tree):
+        if isinstance(n, (ast.FunctionDef, ast.AsyncFunctionDef)) and any(re.search(r'\b(lru_cache|cache|memoize|memoized)\b', text(d)) for d in n.decorator_list):
+            if any(isinstance(c, ast.Call) and M.call_name(c) == 'type' and len(c.args) == 3 for c in ast.walk(n)):
+                out.append(n)
+    return out
+
+
+def r89(chk, m):
+    R = chk.rule('R8.9', 'classes generated for a document (\\the<counter>, \\newif, \\newcommand ...) are built per call: no memoised '
+                 'function (lru_cache / cache) returns a class made with type(): such a class would be shared by every later '
+                 'document, and class packages patch its format in place', 1)
+    need(len(cached_class_factories(ast.parse(FACTORY_SAMPLE))) == 1, 'self-test of the cached-class-factory rule failed')
+    bad = []
+    n = 0
+    for mod in m.modules.values():
+        if 'simpletal' in mod.name:
+            continue
+        n += 1
+        for f in cached_class_factories(mod.tree):
+            bad.append('%s.%s' % (mod.name, f.name))
+    chk.verdict(R, 'no memoised class factory in the package', not bad,
+                'memoised function(s) %s return classes built with type(): the class (and whatever a document class patches on it, e.g. '
+                'article sets thesection.format) is shared by all later documents' % bad, bad[0] if bad else 'plasTeX', '%d modules scanned' % n)
 
 
 def r86(chk, m):
-    R = chk.rule('R8.6', 'trimLeft removes only a leading "0." (chapter 0), never digits inside the number; formatted values '
-                 'substitute ${counter} / ${counter.format} / nested ${thecounter}', 2)
+    R = chk.rule('R8.6', 'trimLeft removes only leading "0." groups (chapter 0), never digits inside the number - decided by '
+                 'evaluating the trimming step on concrete numbers; formatted values substitute ${counter} / ${counter.format} / '
+                 'nested ${thecounter}', 2)
     fn = m.func('plasTeX', 'TheCounter.invoke')
     chk.analysed(fn)
-    blk = [n for n in M.walk_no_nested(fn.node) if isinstance(n, ast.If) and text(n.test) == 'self.trimLeft']
+    TheCounter = m.cls('plasTeX', 'TheCounter')
+    blk = [n for n in M.walk_no_nested(fn.node) if isinstance(n, ast.If) and text(n.test).replace(' ', '') in ('self.trimLeft', 'self.trimLeftisTrue')]
     need(len(blk) == 1, 'TheCounter.invoke: trimLeft block not found')
-    src = ' '.join(text(s) for s in blk[0].body)
-    good = re.search(r"while t\.startswith\(['\"]0\.['\"]\): t = t\[2:\]", src.replace('\n', ' ')) is not None or \
-        re.search(r"re\.sub\(r?['\"]\^\(\?:0\\\.\)\+['\"]|re\.sub\(r?['\"]\^\(0\\\.\)\+['\"]", src) is not None
-    bad = ('re.sub' in src and '^' not in src) or '.replace(' in src or '.lstrip(' in src or '.strip(' in src
-    if not good and not bad:
-        raise AnalysisError('TheCounter.invoke: unrecognised trimLeft idiom (%s): re-confirm R8.6 by hand' % src)
-    chk.verdict(R, 'trimLeft is anchored at the start', good and not bad,
-                'trimLeft is implemented as %r: it must only strip "0." at the very start (10.1 must stay 10.1)' % src, chk.where(fn, blk[0]))
-    s2 = text(fn.node)
-    ok = "getattr(self.ownerDocument.context.counters[name], format)" in s2 and "format = 'arabic'" in s2 and "name.startswith('the')" in s2
+    targets = sorted({t.id for st in blk[0].body for n in ast.walk(st) if isinstance(n, (ast.Assign, ast.AugAssign))
+                      for t in (n.targets if isinstance(n, ast.Assign) else [n.target]) if isinstance(t, ast.Name)})
+    used = sorted({n.id for st in blk[0].body for n in ast.walk(st) if isinstance(n, ast.Name) and isinstance(n.ctx, ast.Load)} & set(targets))
+    need(len(used) == 1, 'TheCounter.invoke: the text variable of the trimLeft step is not identified (%s)' % targets)
+    var = used[0]
+    got = {}
+    for inp in ('0.3', '0.0.3', '10.1', '1.0.2', '3', '0', '20.0.1', '100.2'):
+        h = SelfHooks(m, TheCounter)
+        h.keep = lambda ev: False
+        h.should_inline = A.private_only
+        it = A.Interp(model=m, scope=fn, hooks=h, max_iter=6, exc_edges=False, inline=2)
+        outs = it.block(blk[0].body, [A.State({var: inp, 'self.trimLeft': True})])
+        vals = set()
+        for kind, lst in outs.items():
+            for s2, v in lst:
+                x = s2.env.get(var)
+                vals.add(x if isinstance(x, str) else 'TOP')
+        got[inp] = sorted(vals)
+    import re as _re
+    want = {inp: [_re.sub(r'^(?:0\.)+', '', inp)] for inp in got}
+    chk.decide(R, 'trimLeft is anchored at the start', {repr(sorted(got.items()))}, {repr(sorted(want.items()))},
+               'the trimLeft step turns numbers into %s; expected %s (only "0." groups at the very start are removed: 10.1 must stay 10.1)'
+               % (got, want), chk.where(fn, blk[0]))
+    from .c05 import reachable_private
+    s2 = ' '.join(text(f.node) for f in [fn] + reachable_private(m, fn))
+    consts = ' '.join(repr(m.class_const(TheCounter, k)) for k in TheCounter.assigns)
+    ok = re.search(r"getattr\(\w+(\.ownerDocument\.context\.counters\[\w+\])?, ", s2) is not None and ("'arabic'" in s2 or "'arabic'" in consts) \
+        and ".startswith('the')" in s2
     chk.verdict(R, 'counter format substitution', ok, 'TheCounter.invoke must substitute counter values through the named representation (default arabic)', chk.where(fn))
